@@ -142,10 +142,24 @@ def case(W, cfg):
     except Exception as e:  # the statement lists every one of these spellings as valid
         W.fail("ctor-raises:%s" % type(e).__name__, "Grid(periodic=%r, boundary=%r, fill_value=%r) raised %s: %s" % (periodic, gb, gf, type(e).__name__, e))
         return
+    unnamed = [ax for ax in AXES if isinstance(periodic, list) and ax not in periodic]
+    nfail = len(W.failures)
+    resolution_checks(W, cfg, grid, ds, dn, n, N, periodic, gb, gf, "")
+    if unnamed and len(W.failures) > nfail:
+        # the listed finding (unnamed axes of a periodic list stay periodic) is present on this tree: ask
+        # again with exactly that deviation built into the oracle, so that any *other* deviation of the
+        # same configurations is still reported (labels 'adj:' are never known findings)
+        adjusted = {ax: (ax in periodic) or (ax in unnamed) for ax in AXES}
+        resolution_checks(W, cfg, grid, ds, dn, n, N, adjusted, gb, gf, "adj:")
+
+
+def resolution_checks(W, cfg, grid, ds, dn, n, N, periodic, gb, gf, pre):
+    import copy
+    from xgcm.padding import pad
     for ax in AXES:
         r, f = spec_resolve(ax, periodic, gb, gf, None, None)
-        W.require("grid-default-rule:%s" % ax, grid.axes[ax].boundary == r, "axis %s boundary %r want %r" % (ax, grid.axes[ax].boundary, r))
-        W.require("grid-default-fill:%s" % ax, grid.axes[ax].fill_value == f, "axis %s fill %r want %r" % (ax, grid.axes[ax].fill_value, f))
+        W.require(pre + "grid-default-rule:%s" % ax, grid.axes[ax].boundary == r, "axis %s boundary %r want %r" % (ax, grid.axes[ax].boundary, r))
+        W.require(pre + "grid-default-fill:%s" % ax, grid.axes[ax].fill_value == f, "axis %s fill %r want %r" % (ax, grid.axes[ax].fill_value, f))
     pos = {"X": "center", "Y": "center"}
     order = [dn["Y"]["center"], dn["X"]["center"]]
     if cfg["order"]:
@@ -167,10 +181,10 @@ def case(W, cfg):
             try:
                 r = pad(da, grid, boundary_width=dict(widths), boundary=copy.copy(cb), fill_value=copy.copy(cf))
             except Exception as e:
-                W.fail("pad-raises:%s:%s" % (type(e).__name__, lab), "%s: %s" % (type(e).__name__, e))
+                W.fail(pre + "pad-raises:%s:%s" % (type(e).__name__, lab), "%s: %s" % (type(e).__name__, e))
                 continue
             want = spec_pad2d(a, order, dn, pos, widths, rules, fills)
-            W.equal("res-value:" + lab, r.data, want)
+            W.equal(pre + "res-value:" + lab, r.data, want)
         # second observation point: the same resolution through Grid.diff
         if cfn in ("s", "{X:s,Y:s}") or cbn in ("None", "{X:fill}"):
             kw = {}
@@ -181,11 +195,11 @@ def case(W, cfg):
             try:
                 r = grid.diff(da, "X", to="left", **kw)
             except Exception as e:
-                W.fail("diff-raises:%s:%s|%s" % (type(e).__name__, cbn, cfn), "%s: %s" % (type(e).__name__, e))
+                W.fail(pre + "diff-raises:%s:%s|%s" % (type(e).__name__, cbn, cfn), "%s: %s" % (type(e).__name__, e))
                 continue
             i = order.index(dn["X"]["center"])
             want = apply_along(a, i, lambda v: spec_1d(v, "center", "left", n["X"], "diff", rules["X"], fills["X"]))
-            W.equal("res-diff:%s|%s" % (cbn, cfn), r.data, want)
+            W.equal(pre + "res-diff:%s|%s" % (cbn, cfn), r.data, want)
 
 
 def finding_key(cfg, v):
@@ -193,7 +207,7 @@ def finding_key(cfg, v):
     if cfg.get("kind") == "res":
         if lab.startswith("ctor-raises:KeyError") and isinstance(B_SPELL[cfg["b"]], dict):
             return "ctor-partial-boundary-mapping-KeyError"
-        if isinstance(P_SPELL[cfg["p"]], list) and (lab.startswith("grid-default-rule") or lab.startswith("res-")):
+        if isinstance(P_SPELL[cfg["p"]], list) and len(P_SPELL[cfg["p"]]) < len(AXES) and (lab.startswith("grid-default-rule") or lab.startswith("res-")):
             return "periodic-list-leaves-unnamed-axes-periodic"
     return lab
 
